@@ -10,6 +10,7 @@ import (
 	"encoding/json"
 	"fmt"
 	"hash/crc32"
+	"io"
 	"os"
 	"reflect"
 	"sort"
@@ -528,6 +529,16 @@ func tlbWorker(w *mon.Worker) {
 			seeds = rs
 			w.Count("types_with_real_seed", 1)
 		}
+		if e.Name == "tlb.DNSRecord" {
+			// reference-built dns_adnl_address records, whole and cut after every bit from the flags on; a few
+			// of them join the seeds
+			for i, h := range dnsAdnlRecords(w.Rng("dns-adnl", 0)) {
+				observeTLB(w, e, h.cell, "dns-adnl", h.desc, fmt.Sprintf("dns%d", i))
+				if h.seed {
+					seeds = append(seeds, h.cell)
+				}
+			}
+		}
 		// one fault at a time, enumerated over every position of the valid encodings: each reference dropped,
 		// each reference replaced by a pruned branch / a library cell, each cell cut at a few bit positions,
 		// each cell emptied
@@ -707,7 +718,9 @@ func fillTL(rng *mon.Rng, v reflect.Value, depth int) {
 var hostileWords = [][]byte{{0xff, 0xff, 0xff, 0x7f}, {0xff, 0xff, 0xff, 0xff}, {0xfe, 0xff, 0xff, 0xff}, {0x00, 0x00, 0x00, 0x80}, {0xff, 0x00, 0x00, 0x00}, {0xfe, 0x00, 0x00, 0x01}, {0x00, 0x00, 0x01, 0x00}}
 
 func observeTL(w *mon.Worker, name string, t reflect.Type, in []byte, kind, caseID string) {
-	for _, via := range []string{"tl.Unmarshal", "UnmarshalTL"} {
+	// "plain-reader": the same bytes behind an io.Reader that has nothing but Read (no Len, no Seek), as a
+	// network stream, a bufio / limited reader or any wrapper would hand them over
+	for _, via := range []string{"tl.Unmarshal", "UnmarshalTL", "tl.Unmarshal/plain-reader"} {
 		out := reflect.New(t)
 		u, ok := out.Interface().(tl.UnmarshalerTL)
 		if via == "UnmarshalTL" && !ok {
@@ -720,6 +733,8 @@ func observeTL(w *mon.Worker, name string, t reflect.Type, in []byte, kind, case
 		p := mon.Guard(func() {
 			if via == "UnmarshalTL" {
 				err = u.UnmarshalTL(bytes.NewReader(in))
+			} else if via == "tl.Unmarshal/plain-reader" {
+				err = tl.Unmarshal(struct{ io.Reader }{bytes.NewReader(in)}, out.Interface())
 			} else {
 				err = tl.Unmarshal(bytes.NewReader(in), out.Interface())
 			}
